@@ -24,19 +24,19 @@ def registry():
     R["C01"] = _p(
         "Decides structural clauses of C01 on the typed HIR of src/xlsx: the two cell walkers move the row/column cursor identically (R-SIB-XLSX); the declared <dimension> only sizes capacity hints (R-DIM); element names are matched prefix-insensitively and like with like (R-NS); parts are opened only through the case-insensitive resolver (R-PART); the `t` attribute maps to the documented variants (R-TAB-T) and error literals to error kinds (R-TAB-ERR); Empty cells are filtered before every push (R-TIGHT); readers expand empty elements and never trim (R-XMLCFG); the shared-string table gets one entry per <si> (R-SST).",
         "A1 -> (row, col) arithmetic, number parsing, relationship-target normalisation, the zip layer; an identical edit applied to both walkers",
-        [S.r_sib_xlsx, W.r_dim, X.r_ns, X.r_part, T.r_tab_t, T.r_tab_err, S.r_tight, X.r_xmlcfg, part(W.r_sst, only=["xlsx shared"])])
+        [S.r_sib_xlsx, W.r_dim, X.r_ns, X.r_part, T.r_tab_t, T.r_tab_err, S.r_tight, X.r_xmlcfg, part(W.r_sst, only=["xlsx shared"]), W.r_minmax])
     R["C02"] = _p(
         "Decides structural clauses of C02 on src/xls.rs: the sheet-substream dispatch has an arm feeding the cell vector for each record kind the property names (R-TAB-REC); BoolErr / FormulaValue error codes follow MS-XLS BErr (R-TAB-ERR); DIMENSIONS only sizes a reserve (R-DIM).",
         "RK / IEEE bit arithmetic, sign extension, MULRK column arithmetic",
-        [T.r_tab_rec, T.r_tab_err, W.r_dim])
+        [T.r_tab_rec, T.r_tab_err, W.r_dim, W.r_minmax])
     R["C03"] = _p(
         "Decides structural clauses of C03 on src/xlsb: sibling agreement of next_cell / next_formula on record framing, row state, record ids and position computation (R-SIB-XLSB); error-code table (R-TAB-ERR); BrtWsDim only sizes capacity hints (R-DIM); Empty filter and header-row filter of the lazy range builder (R-TIGHT).",
         "varint arithmetic in read_type / fill_buffer, RK arithmetic, wide_str decoding",
-        [S.r_sib_xlsb, T.r_tab_err, W.r_dim, S.r_tight])
+        [S.r_sib_xlsb, T.r_tab_err, W.r_dim, S.r_tight, W.r_minmax])
     R["C04"] = _p(
         "Decides the value-attribute -> variant table of the ods cell decoder (R-TAB-ODS) and the reader configuration (R-XMLCFG). Amplification by repeat counts is decided under C06.",
         "everything in get_range: bounding box, re-expansion of repeated rows/columns, interior empty runs (run-length arithmetic)",
-        [T.r_tab_ods, X.r_xmlcfg])
+        [T.r_tab_ods, X.r_xmlcfg, W.r_odspara])
     R["C06"] = _p(
         "Decides, over the MIR/HIR of everything reachable from the reader entry points: XML pull loops leave on Eof (R-EOF); Range::range preconditions (R-RANGEPRE); [dataflow rules are added by the C06 engine].",
         "dependencies (zip, quick-xml, encoding_rs, codepage); time / memory constants",
@@ -44,7 +44,7 @@ def registry():
     R["C07"] = _p(
         "Decides: the write footprint of every public read method of the four reader structs is limited to the archive cursor and designated setters/loaders, and no reader stores a cursor (R-FRAME); every Sheets method forwards to the same method of the wrapped reader (R-DELEG); worksheet_range_at & co use n itself (R-AT); worksheets() goes through worksheet_range or the very field it returns (R-WS); unknown names reach WorksheetNotFound (R-NOTFOUND); From<DataRef> for Data preserves variants (R-TAB-FROM).",
         "equality of values across calls beyond the frame condition (zip / XML determinism is trusted)",
-        [W.r_frame, S.r_deleg, S.r_at, S.r_ws, S.r_notfound, T.r_tab_from])
+        [W.r_frame, S.r_deleg, S.r_at, S.r_ws, S.r_notfound, T.r_tab_from, W.r_autodetect])
     R["C08"] = _p(
         "Decides: options.header_row has one writer and is re-read on every call (R-FRAME); the lazy filter keeps rows >= n and pads at row n iff needed (R-TIGHT); Range::range is only reached with start <= end established (R-RANGEPRE); Sheets::with_header_row delegates (R-DELEG).",
         "value equality between the eager (xls, ods) and lazy (xlsx, xlsb) implementations",
@@ -56,7 +56,7 @@ def registry():
     R["C10"] = _p(
         "Decides: numeric Data/DataRef variants are built in the three readers only through formats::format_excel_* whose format operand comes from the cell's style lookup and whose date-system operand from the reader flag (R-NUMCTOR); the two built-in id tables agree with each other and with ECMA-376 18.8.30 (R-TAB-FMT); format kind -> DateTime/TimeDelta flavour (R-TAB-FMTKIND); style tables get one entry per xf (R-SST).",
         "detect_custom_number_format (a string-language scanner)",
-        [W.r_numctor, T.r_tab_fmt, T.r_tab_fmtkind, part(W.r_sst, only=["cellXfs", "XF table"])])
+        [W.r_numctor, T.r_tab_fmt, T.r_tab_fmtkind, part(W.r_sst, only=["cellXfs", "XF table"]), W.r_fmtprec])
     R["C12"] = _p(
         "Decides: after a fragment switch inside a character run the compression flag is re-read and its byte consumed; rich-text runs then extended data are skipped unconditionally in order; Record::skip consumes no flag byte (R-CONT); the SST gets one entry per item (R-SST).",
         "8/16-bit decoding arithmetic (XlsEncoding::decode_to, encoding_rs)",
@@ -80,7 +80,7 @@ def registry():
     R["C19"] = _p(
         "Decides: shared-string tables get one entry per item (R-SST); every text-accumulating event match handles Text and CData and unescapes (R-CDATA); readers never trim and always expand empty elements (R-XMLCFG); phonetic flag set/cleared in pairs and guarding <t> (R-RPH); prefix-insensitive element matching incl. rich-text closing tags (R-NS); CONTINUE handling of xls strings (R-CONT).",
         "per-character decoding in dependencies (encoding_rs, quick-xml entity expansion)",
-        [part(W.r_sst, only=["shared strings", "xls SST"]), X.r_cdata, X.r_xmlcfg, X.r_rph, X.r_ns, W.r_cont])
+        [part(W.r_sst, only=["shared strings", "xls SST"]), X.r_cdata, X.r_xmlcfg, X.r_rph, X.r_ns, W.r_cont, W.r_odspara])
     R["C20"] = _p(
         "Decides: the password sniff dominates archive opening and its error is propagated; Password depends exactly on the EncryptedPackage entry; the FILEPASS arm is unconditional; any manifest:encryption-data start returns Password and the scan is always reached; Password variants are built nowhere else (R-PWD).",
         "container-layout independence of the sniff (delegated to C13)",
